@@ -274,6 +274,7 @@ impl DcpsDomainParticipant {
             QosKind::Default => self.domain_participant.default_topic_qos.clone(),
             QosKind::Specific(q) => q,
         };
+        qos.is_consistent()?;
 
         let Some(topic_handle) = self.domain_participant.next_topic_handle() else {
             return Err(DdsError::OutOfResources);
